@@ -44,6 +44,8 @@ type ccase struct {
 	PossDup   string // "" Y N
 	Routing   bool   // carry optional routing fields
 	BadBody   string // "" | missing-required | unknown-tag  (only with Dict)
+	Reset141  bool   // a Logon carrying ResetSeqNumFlag=Y (the sequence-reset path of logon handling)
+	ROL       bool   // ResetOnLogon=Y configured
 	Misframed bool   // BodyLength disagrees with the content (the frame is still cut at the real trailer)
 }
 
@@ -81,6 +83,12 @@ func genCase(r *rand.Rand) ccase {
 	if c.State == "logonpending" {
 		c.Kind = "A"
 	}
+	if c.Kind == "A" && c.Begin != "FIX.4.0" && r.Intn(2) == 0 {
+		// the Logon asking for a reset is itself number 1 of the new numbering: its number is not a defect dimension
+		c.Reset141 = true
+		c.V34 = "ok"
+	}
+	c.ROL = !c.Initiator && r.Intn(6) == 0 // (the option makes an acceptor restart its numbering at every Logon it receives)
 	nd := core.Pick(r, 0, 1, 1, 1, 1, 1, 2, 2, 3)
 	dims := []string{"8", "49", "56", "52", "34"}
 	r.Shuffle(len(dims), func(i, j int) { dims[i], dims[j] = dims[j], dims[i] })
@@ -111,6 +119,9 @@ func genCase(r *rand.Rand) ccase {
 	c.Routing = r.Intn(3) == 0
 	if c.Dict && c.Kind == "D" && r.Intn(3) == 0 {
 		c.BadBody = core.Pick(r, "missing-required", "unknown-tag")
+	}
+	if c.Reset141 || (c.ROL && c.Kind == "A") {
+		c.V34 = "ok" // (see above; the same holds for any Logon received by a ResetOnLogon acceptor)
 	}
 	if nd == 0 && c.BadBody == "" && c.V34 == "ok" && r.Intn(3) == 0 {
 		c.Misframed = true
@@ -159,6 +170,9 @@ func buildMessage(c ccase, l *lab.Lab, p *lab.Peer, exp int) (raw []byte, seqVal
 	switch c.V34 {
 	case "ok":
 		seqVal = fmt.Sprint(exp)
+		if c.Reset141 || (c.ROL && c.Kind == "A") {
+			seqVal = "1"
+		}
 	case "low":
 		seqVal = fmt.Sprint(exp - 2)
 	case "high":
@@ -226,6 +240,9 @@ func buildMessage(c ccase, l *lab.Lab, p *lab.Peer, exp int) (raw []byte, seqVal
 		rest = append(rest, lab.F(36, fmt.Sprint(exp+5)))
 	case "A":
 		rest = append(rest, lab.F(98, "0"), lab.F(108, "30"))
+		if c.Reset141 {
+			rest = append(rest, lab.F(141, "Y"))
+		}
 		if c.Begin == "FIXT.1.1" {
 			rest = append(rest, lab.F(1137, "9"))
 		}
@@ -370,6 +387,9 @@ func runCase(c *core.Ctx, r *core.Result, stream string, i int, rng *rand.Rand, 
 	if !cs.CheckLat {
 		st["CheckLatency"] = "N"
 	}
+	if cs.ROL {
+		st["ResetOnLogon"] = "Y"
+	}
 	if cs.Dict {
 		for k, v := range lab.DictSettings(cs.Begin) {
 			st[k] = v
@@ -435,7 +455,7 @@ func runCase(c *core.Ctx, r *core.Result, stream string, i int, rng *rand.Rand, 
 		}
 	}
 	accept, anyDefect := expected(cs)
-	fp := fmt.Sprintf("%s|%s|%s|pd%s|%v|%v", cs.State, cs.Kind, cs.defects(), cs.PossDup, cs.Dict, cs.CheckLat)
+	fp := fmt.Sprintf("%s|%s|%s|pd%s|%v|%v|%v%v", cs.State, cs.Kind, cs.defects(), cs.PossDup, cs.Dict, cs.CheckLat, cs.Reset141, cs.ROL)
 	r.Seen("reactions", fmt.Sprintf("%v", rx.Outs))
 	if nframes == 0 {
 		r.Count("not_framed", 1)
